@@ -22,7 +22,6 @@ ASSUME = ["tskit's build_index / compute_mutation_parents / compute_mutation_tim
           "util.constrain_ages is the model of C27 (coq/model/Constrain.v, bit-exact)"]
 
 K9_SIG = "c02:mutation-rows-reordered-within-multi-mutation-site"
-MIG_SIG = "c02:migration-rows-reordered"
 SAFE_KINDS = [k for k in G.KINDS if k not in G.CRASH_KINDS]
 
 
@@ -42,6 +41,54 @@ def rows_of(table, cols):
                 r.append(float(x) if isinstance(x, (float, np.floating)) else int(x))
         out.append(tuple(r))
     return out
+
+
+def _decoded(schema, b):
+    if len(b) == 0:
+        return {}
+    try:
+        d = schema.decode_row(b)
+    except Exception:   # noqa: BLE001
+        return None
+    return d if isinstance(d, dict) else None
+
+
+def other_fields_diff(ta, tb, by_site):
+    """'' or a description: some key other than mn / vr that a row held before is gone or changed.
+    Mutation rows are compared as a multiset per site (rows may be permuted there: K9)"""
+    if repr(ta.metadata_schema) != repr(tb.metadata_schema) or ta.num_rows != tb.num_rows:
+        return ""
+    schema = ta.metadata_schema
+    ra, rb = G.table_rows(ta), G.table_rows(tb)
+    if schema.schema is None:
+        return ""
+
+    def strip(d):
+        return json.dumps({k: v for k, v in d.items() if k not in ("mn", "vr")}, sort_keys=True, default=str)
+    da, db = [_decoded(schema, x) for x in ra], [_decoded(schema, x) for x in rb]
+    if any(x is None for x in da) or any(x is None for x in db):
+        return ""
+    if not by_site:
+        for i, (x, y) in enumerate(zip(da, db)):
+            lost = [k for k in x if k not in ("mn", "vr") and (k not in y or y[k] != x[k])]
+            if lost:
+                return "row %d lost / changed %r: %r -> %r" % (i, lost, x, y)
+        return ""
+    groups_a, groups_b = {}, {}
+    for i in range(ta.num_rows):
+        groups_a.setdefault(int(ta.site[i]), []).append(strip(da[i]))
+        groups_b.setdefault(int(tb.site[i]), []).append(strip({k: v for k, v in db[i].items() if k in da[i] or True}))
+    for s_, la in groups_a.items():
+        lb = groups_b.get(s_, [])
+        # every input row's other fields must be found (as a subset of keys) among the output rows
+        rest = [json.loads(x) for x in lb]
+        for x in la:
+            xd = json.loads(x)
+            hit = next((y for y in rest if all(k in y and y[k] == v for k, v in xd.items())), None)
+            if hit is None:
+                return "site %d: no output row keeps %r (output rows %r)" % (s_, xd, lb)
+            rest.remove(hit)
+    return ""
 
 
 def frame_check(its, ots, unphased):
@@ -69,17 +116,18 @@ def frame_check(its, ots, unphased):
     ecols = ("left", "right", "parent", "child", "metadata")
     if a.edges.metadata_schema != b.edges.metadata_schema or sorted(rows_of(a.edges, ecols)) != sorted(rows_of(b.edges, ecols)):
         bad.append(("c02:edge-set-changed", "%d -> %d edges" % (a.edges.num_rows, b.edges.num_rows)))
-    # migrations
+    # migrations: the table must come back as it was, row for row
     if a.migrations != b.migrations:
         gcols = ("left", "right", "node", "source", "dest", "time", "metadata")
         ra, rb = rows_of(a.migrations, gcols), rows_of(b.migrations, gcols)
-        key = lambda r: (r[5], r[3], r[4], r[0], r[2])   # noqa: E731  tskit's documented sort key
-        if sorted(ra) == sorted(rb) and a.migrations.metadata_schema == b.migrations.metadata_schema \
-                and [key(r) for r in rb] == sorted(key(r) for r in rb):
-            bad.append((MIG_SIG, "same rows, now in (time, source, dest, left, node) order: input order %r" % (
-                [ra.index(r) for r in rb],)))
-        else:
-            bad.append(("c02:migration-table-changed", ""))
+        bad.append(("c02:migration-table-changed", "rows in input order %r" % (
+            [ra.index(r) if r in ra else None for r in rb],)))
+    # metadata fields other than mn / vr (when the schema was kept; a replaced schema is the
+    # clearing that the set_metadata policy of C32 allows)
+    for name in ("nodes", "mutations"):
+        d = other_fields_diff(getattr(a, name), getattr(b, name), by_site=(name == "mutations"))
+        if d:
+            bad.append(("c02:metadata-other-fields-changed:%s" % name, d))
     # mutations: site, derived state and (unless unphased) node of every row
     if a.mutations.num_rows != b.mutations.num_rows:
         bad.append(("c02:mutation-count", "%d -> %d" % (a.mutations.num_rows, b.mutations.num_rows)))
@@ -153,7 +201,7 @@ def decorated_input(rng, ctx, kinds=None, edge_md=True, migrations=None, extras=
     kw = dict(multi=multi, extras=extras, min_muts=2)
     if extras and migrations is not None:
         kw["migrations"] = migrations
-    ts = G.pooled_ts(rng, size=ctx.n(10, 40), **kw)
+    ts = G.maybe_permuted(rng, G.pooled_ts(rng, size=ctx.n(10, 40), **kw), 0.4)
     tables = ts.dump_tables()
     kn, km = rng.choice(kinds or G.KINDS), rng.choice(kinds or G.KINDS)
     G.decorate(tables.nodes, kn, rng)
